@@ -81,6 +81,9 @@ def plan_blocking(length):
                     yield ('cmd', p, [b'swapdb', b'0', b'1'])
                 elif k < 0.80:
                     yield ('cmd', p, [b'renamenx', key, rng.choice(LKEYS)])
+                elif k < 0.83:
+                    # overwrite / delete a list key while consumers may be parked on it (its tokens are destroyed legitimately)
+                    yield ('cmd', p, rng.choice([[b'set', key, b'str'], [b'del', key], [b'sadd', key, b'x']]))
                 elif k < 0.86:
                     yield ('cmd', p, [b'lpop', key])
                 elif k < 0.90:
@@ -139,6 +142,14 @@ def mon_blocking(session, ev, name, before, out_i, crash_i):
         dup = sorted(x for x in set(everything) if everything.count(x) > 1)
         Mn.add(session, 'C11', 'conservation', 'element(s) %r duplicated (in lists %r, delivered %r)' % (dup, in_lists, led['delivered']))
     seen = led.setdefault('seen', set())
+    if ev[0] == 'cmd' and name in ('set', 'del', 'exec') and before is not None:
+        # tokens of a list that this command overwrote or deleted are gone by design
+        bl = {x for ents in before['dbs'].values() for k, v, e in ents if v.startswith('L') for x in v[1:].split(',')}
+        al = {x for ents in st['dbs'].values() for k, v, e in ents if v.startswith('L') for x in v[1:].split(',')}
+        delivered_now = {x.hex() for x in led['delivered']}
+        for x in bl - al:
+            if x != '_' and x not in delivered_now:
+                seen.discard(bytes.fromhex(x))
     seen.update(x for x in in_lists if x.startswith(b'e'))
     missing = seen - set(everything)
     # tokens in an expired list are gone legitimately; the plan never lets list keys expire before the end
